@@ -110,7 +110,20 @@ def call_kwargs(spec, is_async):
     return kw
 
 
-class SyncTimeouts(object):
+# Nothing in a scenario may depend on how fast this machine is.  All waiting and all deadline arithmetic of api_core runs on
+# the virtual clock (Patched).  The one place where real time remains is the transport itself: the timeout a call carries
+# becomes a real gRPC deadline / socket timeout.  The exact value is RECORDED first, then lengthened by REAL_SLACK before it
+# goes on the wire, so that a loaded machine cannot expire a 0.5 s deadline; the server-side observation is compared modulo
+# this constant.
+REAL_SLACK = 40.0
+
+
+import collections
+import grpc as _grpc
+
+
+class _Details(collections.namedtuple("_Details", ("method", "timeout", "metadata", "credentials", "wait_for_ready", "compression")),
+               _grpc.ClientCallDetails):
     pass
 
 
@@ -129,6 +142,8 @@ def make_client(pkg, spec, target, seen):
 
         def recording_request(method, url, *a, **k):
             seen.append(k.get("timeout"))
+            if k.get("timeout") is not None:
+                k["timeout"] = k["timeout"] + REAL_SLACK
             return real(method, url, *a, **k)
         tr._session.request = recording_request
         return getattr(svc, spec["client"])(transport=tr)
@@ -136,12 +151,17 @@ def make_client(pkg, spec, target, seen):
         class Rec(grpc.aio.UnaryUnaryClientInterceptor):
             async def intercept_unary_unary(self, continuation, details, request):
                 seen.append(details.timeout)
+                if details.timeout is not None:
+                    details = details._replace(timeout=details.timeout + REAL_SLACK)
                 return await continuation(details, request)
         ch = grpc.aio.insecure_channel(target, interceptors=[Rec()])
     else:
         class Rec(grpc.UnaryUnaryClientInterceptor):
             def intercept_unary_unary(self, continuation, details, request):
                 seen.append(details.timeout)
+                if details.timeout is not None:
+                    details = _Details(details.method, details.timeout + REAL_SLACK, details.metadata, details.credentials,
+                                       getattr(details, "wait_for_ready", None), getattr(details, "compression", None))
                 return continuation(details, request)
         ch = grpc.intercept_channel(grpc.insecure_channel(target), Rec())
     return getattr(svc, spec["client"])(transport=tcls(channel=ch))
@@ -208,7 +228,7 @@ def main():
     for spec in payload["calls"]:
         if spec.get("inspect"):
             try:
-                results.append({"ok": True, "installed": inspect_defaults(payload["package"], spec, gs)})
+                results.append({"ok": True, "installed": inspect_defaults(spec.get("package") or payload["package"], spec, gs)})
             except Exception as e:  # noqa
                 results.append({"ok": False, "error": D.exc_info(e), "traceback": traceback.format_exc()[-800:]})
             continue
@@ -249,7 +269,7 @@ def main():
             for m in (retry_base, retry_unary, retry_unary_async):
                 m.time.sleep = guarded_sleep
             try:
-                got = run_one(spec, gs, payload["package"], clock, seen)
+                got = run_one(spec, gs, spec.get("package") or payload["package"], clock, seen)
                 if "pager" in spec:
                     rec["items"] = len(got)
             except Exception as e:  # noqa
